@@ -127,6 +127,19 @@ def table():
     q("parse_static_mods")(lambda pp, a, x: pp.proforma.proforma_parser.parse_static_mods(x["staticlist"]))
     q("fix_list_of_mods")(lambda pp, a, x: pp.proforma.input_convert.fix_list_of_mods(x["rawmods"]))
     q("create_annotation")(lambda pp, a, x: pp.create_annotation("PEPTIDE", nterm_mods=x["modlist"], internal_mods=x["internaldict"]))
+    q("create_annotation_intervals")(lambda pp, a, x: pp.create_annotation("PEPTIDE", intervals=x["intervallist"]))
+    q("apply_variable_mods_zero")(lambda pp, a, x: pp.apply_variable_mods(a, {"P": [[_mods(pp)("Oxidation", 1)]]}, 0,
+                                                                             return_type="annotation"))
+    q("mass_isotope_mods_arg")(lambda pp, a, x: pp.mass(a, isotope_mods=["13C"]))
+    q("comp_isotope_mods_arg")(lambda pp, a, x: pp.comp(a, estimate_delta=True, isotope_mods=x["isomods"]))
+    q("mz_isotope_mods_arg")(lambda pp, a, x: pp.mz(a, charge=2, isotope_mods=["15N"]))
+    q("digest_enzyme_names")(lambda pp, a, x: pp.digest(a, x["enzymes"], missed_cleavages=1))
+    q("digest_config_names")(lambda pp, a, x: pp.digest_from_config(a, x["config"]))
+    q("sequential_digest_configs")(lambda pp, a, x: pp.sequential_digest(a, x["configs"]))
+    q("fragment_b_avg_mass")(lambda pp, a, x: pp.fragment(a, "b", 1, monoisotopic=False, return_type="mass"))
+    q("fragment_y_mono_mass")(lambda pp, a, x: pp.fragment(a, "y", [1, 2], monoisotopic=True, return_type="mass"))
+    q("fragment_objects")(lambda pp, a, x: pp.fragment(a, ["b", "y"], 1))
+    q("fragmenter_object")(lambda pp, a, x: pp.Fragmenter(a))
     q("parse_text")(lambda pp, a, x: pp.parse("[Acetyl]-PEP[1]TIDE/2"))
     # ------------------------------------------------------------------ queries whose arguments are immutable texts:
     # their answers can only depend on hidden process-wide state (caches, lazily completed tables)
@@ -178,4 +191,7 @@ def aux(pp):
         "dist1": [(100.0, 0.5), (101.0, 0.25)], "dist2": [(100.0, 0.25), (102.0, 0.125)],
         "staticlist": [Mod("[Oxidation]@M", 1)], "rawmods": ["Oxidation", 1.5, Mod("Acetyl", 1)],
         "internaldict": {0: [Mod("Phospho", 1)]},
+        "intervallist": [pp.Interval(1, 3, False, [Mod("Phospho", 1)])],
+        "enzymes": ["trypsin/P", "asp-n"], "config": pp.EnzymeConfig(regex=["lys-c", "(?<=D)"]),
+        "configs": [pp.EnzymeConfig(regex=["trypsin/P"]), pp.EnzymeConfig(regex=["glu-c", "asp-n"], missed_cleavages=1)],
     }
